@@ -76,6 +76,10 @@ fn new_vm_with(optimize: bool, prelude: bool) -> RootedThread {
     gluon::import::add_extern_module(&vm, "c04.host", |thread| {
         ExternModule::new(thread, gluon::record! { eff => gluon::primitive!(1, "c04.host.eff", eff) })
     });
+    // the effect primitive of the shared MiniGluon generator (gvh::mg), logging into this harness
+    gluon::import::add_extern_module(&vm, "mg.prim", |thread| {
+        ExternModule::new(thread, gluon::record! { eff => gluon::primitive!(1, "mg.prim.eff", eff) })
+    });
     vm
 }
 
@@ -1100,6 +1104,11 @@ fn host_env(it: &mut Interner, lib: Option<&str>) -> String {
     let pid = global_id(it, "@std.prim");
     let err = it.field("error");
     s.push_str(&format!(" ({} (host ({} error)))", pid, err));
+    let mid = global_id(it, "@mg.prim");
+    s.push_str(&format!(" ({} (host ({} eff)))", mid, eff));
+    // `import! std.types` is a record of types only
+    let tid = global_id(it, "@std.types");
+    s.push_str(&format!(" ({} (host))", tid));
     if let Some(l) = lib {
         let lid = global_id(it, "@c04.lib");
         s.push_str(&format!(" ({} (core {}))", lid, l));
@@ -1181,7 +1190,18 @@ fn shrink(vms: &mut Vms, p: &Prog) -> Prog {
     cur
 }
 
+/// A panic inside gluon's front end or compiler (an internal compiler error) must not take the
+/// harness down: the program is skipped and the VMs are renewed.
 fn do_program(vms: &mut Vms, out: &mut Out, name: &str, family: &str, src: &str, prog: Option<&Prog>) {
+    let r = std::panic::catch_unwind(std::panic::AssertUnwindSafe(|| do_program_inner(vms, out, name, family, src, prog)));
+    if r.is_err() {
+        out.hist.add("program:gluon-panic");
+        out.skipped.push(format!("{}: panic inside gluon while compiling", name));
+        vms.renew();
+    }
+}
+
+fn do_program_inner(vms: &mut Vms, out: &mut Out, name: &str, family: &str, src: &str, prog: Option<&Prog>) {
     if vms.uses > 3000 {
         vms.renew();
     }
@@ -1228,8 +1248,14 @@ fn do_program(vms: &mut Vms, out: &mut Out, name: &str, family: &str, src: &str,
     out.hist.add(&format!("outcome-off:{}", r.off.class()));
     out.hist.add(&format!("log-len:{}", r.off.log.len().min(5)));
     let tags = it.tags_sexp();
-    out.line("E", name, family, src, &format!("E {} {} {}", env, tags, pair.off), &r.off.canonical());
-    out.line("E", name, family, src, &format!("E {} {} {}", env, tags, pair.on), &r.on.canonical());
+    const KNOWN_GLOBALS: &[&str] = &["@c04.host", "@std.prim", "@c04.lib", "@mg.prim", "@std.types"];
+    if it.globals.keys().all(|g| KNOWN_GLOBALS.contains(&g.as_str())) {
+        out.line("E", name, family, src, &format!("E {} {} {}", env, tags, pair.off), &r.off.canonical());
+        out.line("E", name, family, src, &format!("E {} {} {}", env, tags, pair.on), &r.on.canonical());
+    } else {
+        // the program imports a module the model's environment does not contain
+        out.hist.add("eval_core:skipped-other-imports");
+    }
     if !allowed(&r.off, &r.on) {
         out.behav_diffs += 1;
         out.hist.add("behaviour:differs");
@@ -1344,7 +1370,9 @@ fn corpus_dir() -> std::path::PathBuf {
 }
 
 fn main() {
-    let args = Args::parse();
+    let mut args = Args::parse();
+    // (the tests/optimize family changes the working directory)
+    args.out = std::fs::canonicalize(&args.out).unwrap_or_else(|_| args.out.clone());
     let repo = std::env::var("GLUON_REPO").unwrap_or_else(|_| "/repo".to_string());
     let mut vms = Vms::new();
 
@@ -1397,16 +1425,53 @@ fn main() {
         }
     }
 
+    // 1b. the optimiser's own regression inputs, tests/optimize/*.glu (they import each other
+    // relative to the repository root)
+    if want("tests") {
+        let _ = std::env::set_current_dir(&repo);
+        let mut files: Vec<_> = std::fs::read_dir(std::path::Path::new(&repo).join("tests").join("optimize"))
+            .map(|r| r.filter_map(|e| e.ok()).map(|e| e.path()).collect())
+            .unwrap_or_default();
+        files.sort();
+        for f in files {
+            if f.extension().map_or(false, |x| x == "glu") {
+                let src = std::fs::read_to_string(&f).expect("test file");
+                let name = format!("tests/optimize/{}", f.file_name().unwrap().to_string_lossy());
+                do_program(&mut vms, &mut out, &name, "repo-tests-optimize", &src, None);
+            }
+        }
+    }
+
     // 2. generated programs
     if want("gen") {
         let mut rng = Rng::new(args.seed);
-        let n: u64 = args.extra.get("programs").and_then(|s| s.parse().ok()).unwrap_or(if args.thorough() { 12000 } else { 1500 });
+        let n: u64 = args.extra.get("programs").and_then(|s| s.parse().ok()).unwrap_or(if args.thorough() { 12000 } else { 2000 });
         for i in 0..n {
             let depth = 1 + (i % 3) as u32;
             let mut g = Gen { rng: &mut rng, next: 0 };
             let p = g.prog(depth);
             let src = print_prog(&p);
             do_program(&mut vms, &mut out, &format!("gen/{}", i), &format!("generated-depth-{}", depth), &src, Some(&p));
+        }
+    }
+
+    // 2b. programs of the shared MiniGluon generator (gvh::mg): the whole fragment (nested patterns,
+    // tuples, arrays, record update, recursive functions, strings, bytes ...), both printing styles
+    if want("mg") {
+        use gvh::mg::generate::{gen_program, GenConfig};
+        use gvh::mg::print::{to_gluon, Style};
+        let mut rng = Rng::new(args.seed ^ 0x6d67);
+        let n: u64 = args.extra.get("mg").and_then(|s| s.parse().ok()).unwrap_or(if args.thorough() { 6000 } else { 800 });
+        let mut cfg = GenConfig::default();
+        cfg.features.floats = false; // float arithmetic is not interpreted by the model
+        cfg.features.array_prims = false; // std.array.prim externs are not part of the model's environment
+        cfg.features.multi_record_alts = false; // crashes gluon's pattern translator (finding of C01)
+        cfg.features.update_reorder = false; // evaluation order finding of C01
+        for i in 0..n {
+            let p = gen_program(&mut rng, &cfg);
+            let style = if i % 2 == 0 { Style::explicit() } else { Style::layout() };
+            let src = to_gluon(&p, &style);
+            do_program(&mut vms, &mut out, &format!("mg/{}", i), "minigluon", &src, None);
         }
     }
 
